@@ -1,2 +1,8 @@
 pub mod scan;
 pub mod step;
+pub mod bufstep;
+pub mod cfgdiff;
+pub mod attr;
+pub mod esc;
+pub mod ns;
+pub mod writer;
